@@ -161,7 +161,9 @@ where
         self.advance_to_end_of_line();
         let end_position = self.get_position();
 
-        &self.current_block.content[start_position..end_position]
+        // If the line ends with "\r\n", the '\r' is part of the line ending, not of the comment.
+        let comment = &self.current_block.content[start_position..end_position];
+        comment.strip_suffix('\r').unwrap_or(comment)
     }
 
     /// Reads and consumes a block comment from the buffer, ignoring it.
